@@ -187,6 +187,11 @@ fn run_one(l: &Logical, w: &Wiring) -> Result<Outcome, String> {
                     unknown.dedup();
                     sender_line = if !named.is_empty() { format!("from:{}", named.join("|")) } else { format!("unknown:{}", unknown.join("|")) };
                     let want = l.sender_line.clone().unwrap_or_default();
+                    // sender == recipient: the recipient's own name is the sender's name (it was excluded above because
+                    // messages may mention the recipient anyway): it must be mentioned and no key reported as unknown
+                    if want == format!("from:{}", l.to) {
+                        sender_line = if tokens.iter().any(|t| *t == l.to) && unknown.is_empty() { want.clone() } else { format!("unknown:{}", unknown.join("|")) };
+                    }
                     if sender_line != want {
                         return Err(format!("sender reported as {:?}, expected {:?} (the keyring entry whose public key equals the authenticated sender key) ({})", sender_line, want, cmd.display()));
                     }
@@ -293,6 +298,30 @@ fn logical_cases(seed: u64, tier: Tier) -> Vec<Logical> {
         dec("decrypt/wrong-password", f1.clone(), &kr_first, "bob", Some("alicepw"), false, &[], None),
         dec("decrypt/password-variable-unset", f1.clone(), &kr_first, "bob", None, false, &[], None),
     ];
+    // a message bob encrypted to himself: the sender named is bob
+    let fself = r::write_key_file(&bob.sk, &bob.pk, &e, &pay, &p1, &[500]).unwrap();
+    v.push(dec("decrypt/valid-self-encrypted", fself, &kr_first, "bob", Some("bobpw"), true, &p1, Some("from:bob".to_string())));
+    // a forged, keyless ending: after an authentic non-final chunk (or right after the header) comes a record that
+    // claims {last = 1, length 0} with 16 arbitrary bytes where the tag should be
+    {
+        let forged_tail = |counter: u64| -> Vec<u8> {
+            let mut t = counter.to_be_bytes().to_vec();
+            t.extend_from_slice(&1u32.to_be_bytes());
+            t.extend_from_slice(&0u32.to_be_bytes());
+            t.extend_from_slice(&[0x5a; 16]);
+            t
+        };
+        let mut a = f3[..132 + 32 + CS].to_vec();
+        a.extend_from_slice(&forged_tail(1));
+        v.push(dec("decrypt/forged-empty-final-chunk-after-chunk-1", a, &kr_first, "bob", Some("bobpw"), false, &[], None));
+        let mut b = f3[..132].to_vec();
+        b.extend_from_slice(&forged_tail(0));
+        v.push(dec("decrypt/forged-empty-final-chunk-after-header", b, &kr_first, "bob", Some("bobpw"), false, &[], None));
+        let mut c = f0.clone();
+        let n = c.len();
+        c[n - 1] ^= 1;
+        v.push(dec("decrypt/empty-plaintext-file-with-a-tag-bit-changed", c, &kr_first, "bob", Some("bobpw"), false, &[], None));
+    }
     let enc_case = |name: &str, kr: &str, to: &str, from: &str, pw: Option<&str>, ok: bool, plain: &[u8]| Logical {
         name: name.into(),
         kind: Kind::Encrypt,
